@@ -721,7 +721,7 @@ func runC16(c *Ctx) {
 			}
 			return nil, false
 		}
-		e := &evalCtx{fieldVal: fv, env: map[ssa.Value]constant.Value{}}
+		e := &evalCtx{fieldVal: fv, env: map[ssa.Value]constant.Value{}, pkgFuncs: P.PkgFuncs("shell")}
 		res, err := e.run(completeFn.Blocks[0], nil)
 		if err != nil || len(res) != 1 {
 			c.undecided("R-FST-INTERP", "shell.(*Scanner).Complete", completeFn.Pos(), fmt.Sprint("cannot read Complete as a set of states: ", err))
@@ -730,7 +730,7 @@ func runC16(c *Ctx) {
 		}
 		m.complete[s] = constant.BoolVal(res[0])
 		if interp != nil && interp.eofBlock != nil {
-			e2 := &evalCtx{fieldVal: fv, env: map[ssa.Value]constant.Value{}}
+			e2 := &evalCtx{fieldVal: fv, env: map[ssa.Value]constant.Value{}, pkgFuncs: P.PkgFuncs("shell")}
 			res, err := e2.run(interp.eofBlock, interp.eofBlock.Preds[0])
 			if err != nil || len(res) != 1 {
 				c.undecided("R-FST-INTERP", "shell.(*Scanner).Next:eof-verdict", nextFn.Pos(), fmt.Sprint("cannot read the end-of-input verdict: ", err))
@@ -1342,7 +1342,7 @@ func checkInterp(c *Ctx, m *shellModel, nextFn *ssa.Function, stF, errF, bufF, c
 			return
 		}
 		bo, ok := iff.Cond.(*ssa.BinOp)
-		if !ok || bo.Op != token.EQL {
+		if !ok || (bo.Op != token.EQL && bo.Op != token.NEQ) {
 			return
 		}
 		idx, ok := fieldOfEntry(bo.X)
@@ -1353,8 +1353,14 @@ func checkInterp(c *Ctx, m *shellModel, nextFn *ssa.Function, stF, errF, bufF, c
 		if !ok {
 			return
 		}
-		arms[v] = iff.Block().Succs[0]
-		fallthroughBlk = iff.Block().Succs[1]
+		// `act != k` is the same test with its arms the other way round (the last link of an if/else chain:
+		// else if act != drop { panic })
+		eq, ne := 0, 1
+		if bo.Op == token.NEQ {
+			eq, ne = 1, 0
+		}
+		arms[v] = iff.Block().Succs[eq]
+		fallthroughBlk = iff.Block().Succs[ne]
 	})
 	allOK := true
 	for v, name := range m.actionName {
